@@ -109,6 +109,49 @@ CHECKS = {
         "Trusted: the dictionary + alias model (mc/drivers/c18.py m_apply). For a case variant of an SM field name 'refused' or 'assigned to the field' are both accepted; clear()/move_to_end() are outside the statement's operation alphabet.",
         "DESIGN.md 5 (C18)",
     ),
+
+    "C05": (
+        "model_checking",
+        "exhaustive enumeration of byte payloads x tried-encoding lists through the real open functions, and of content class x file-name configuration x encoding list x filesystem x edit script through the real mutate(), each run followed by a whole-filesystem comparison with a bytes/codec model and a no-op second run",
+        "Detection: every 1-byte payload (MemoryFS and native) and 2-byte payloads (all with a high lead byte in thorough) embedded in .sm/.ssc files x 5 tried lists + explicit encoding: reported encoding = first of the list that decodes the whole file, loaded simfile = decoded text, UnicodeDecodeError only when none decodes. mutate: one payload per decodability signature x 2 layouts x {.sm,.ssc} x output x backup {none, other, =input, =output} x 3 encoding configurations x 2 filesystems x edit scripts: output/backup content, untouched input and other files, refused clashes, byte-stable no-op re-run.",
+        "Trusted: Python codecs; MemoryFS and the OS as stores. Values contain no bare carriage return.",
+        "DESIGN.md 5 (C05)",
+    ),
+    "C06": (
+        "fault_enumeration",
+        "exhaustive fault enumeration on the real mutate() save path through a call-counting, fault-injecting filesystem seam: every body position x exception class, serialization and encoding faults at several positions, and an injected failure at every numbered open/write/flush/close call of the fault-free run",
+        "For {MemoryFS, native} x {.sm,.ssc} x 4 detected encodings x layout x output x backup: 8 exception classes at every position of every edit script (filesystem unchanged; CancelMutation swallowed, everything else propagates as the same object); unserializable and unencodable simfiles (input bytes intact); a failure at every call index k of the recorded call sequence (input intact unless it had been opened for writing; a requested backup complete before the output is opened; the injected exception reaches the caller).",
+        "Trusted: the seam only counts and fails calls (mc/fsseam.py); faults at call granularity, not power loss; no atomic replace is claimed once the input has been opened for writing.",
+        "DESIGN.md 5 (C06)",
+    ),
+    "C16": (
+        "model_checking",
+        "explicit-state construction tree over SM source simfiles (optional-property subsets x timing spellings x chart lists) x simfile/chart templates through the real sm_to_ssc, every state compared with a conversion model and with the library's own timing and note readers",
+        "All subsets of <=3/4 of 12 optional source properties (ANIMATIONS alias, SSC-only keys already present, unknown and key-only keys) over OFFSET/BPMS/STOPS x 6 chart lists x 5 simfile templates x 4 chart templates, the corpus SM file x 20 template pairs, negative-timing sources: exact key set and values, chart order and fields, TimingData and NoteData equality, source/templates unmodified, no shared mutable objects (also by mutating the result), serialization reloads equal, NotImplementedError for negative BPM/stop.",
+        "Trusted: mc/models/convert.py; blank templates' content read from the library. Key order of the result is not claimed. FREEZES sources and partial chart templates are known findings.",
+        "DESIGN.md 5 (C16)",
+    ),
+    "C17": (
+        "model_checking",
+        "exhaustive product enumeration of SSC-only property x value state x behaviour mapping (all 5^5 in thorough), ordered property pairs, templates, corpus files x all 4^5 mappings through the real ssc_to_sm, compared with a policy model; round trip over the C16 source tree",
+        "Every SSC-only property (16 simfile-level, 17 chart-level) x {absent, empty, default, default padded, non-default} x mappings; ordered pairs for the first-offending-property clause; templates; corpus SSC files x 1024 full mappings; ssc_to_sm(sm_to_ssc(sm)) equality on original keys: only the three documented outcomes occur, the exception names the first offending property, results obey the policy, nothing is modified or shared.",
+        "Trusted: property-kind table, default behaviours and default values pinned from the library's tables (mc/models/convert.py). Chart keys the SM chart cannot hold are known findings (bare KeyError).",
+        "DESIGN.md 5 (C17)",
+    ),
+    "C19": (
+        "model_checking",
+        "exhaustive enumeration of directory trees (subsets of a name alphabet, multisets of pack children) x every listing order offered by a filesystem seam x options, on MemoryFS and the native filesystem, through the real SimfileDirectory / SimfilePack / opendir / openpack, compared with a tree model",
+        "Song directories: every subset of <=3/4 of 10 names (mixed-case extensions, near misses, other files) x all listing orders x ignore_duplicate x trailing slash; packs: every multiset of <=3/4 of 11 child kinds (sm, ssc, both, duplicates, stray text, empty, near-miss only, nested, loose file, loose image, CP932 file) x listing orders x ignore_duplicate x strict x encoding: paths, SSC preference, duplicate error / first listed, FileNotFoundError, exact pack membership, opendir/openpack agreement, loader options reaching every file.",
+        "Trusted: MemoryFS and the OS; the seam only permutes listings (mc/fsseam.py).",
+        "DESIGN.md 5 (C19)",
+    ),
+    "C20": (
+        "model_checking",
+        "exhaustive enumeration of directory contents (subsets of a 24-name alphabet) x simfile property states x listing orders on MemoryFS and the native filesystem through the real Assets / SimfilePack.banner, compared with a pattern model that accepts any matching entry",
+        "Every subset of <=2/3 names hitting, nearly hitting and missing each documented pattern, simfile given or loaded, all listing orders; per asset kind 9 property states (absent, empty simfile object, empty, exact, other case, missing, sub-directory in other case, wrong-case sub-directory, missing sub-directory) x subsets of 5 directory extras; pack banners inside/beside x orders: answer is the named file (case-insensitive) else a pattern match else None, exists, normalized, stable on re-read; banner by extension priority.",
+        "Trusted: mc/models/assets.py. Which of several matching entries is returned is not claimed; the disc image lookup is not claimed.",
+        "DESIGN.md 5 (C20)",
+    ),
 }
 
 PLANNED = "check not built yet (work in progress this round; design in DESIGN.md section 5)"
